@@ -3,6 +3,7 @@
 # extraction + harness) by running its quick check once.  Results of these warm-up runs are not used.
 cd "$(dirname "$0")"
 set -u
+mkdir -p build evidence replays
 ( cd coq/common && coq_makefile -f _CoqProject -o Makefile >/dev/null 2>&1 && make -j8 ) || exit 1
 ids=$(python3 -c "import json; print(' '.join(c['property_id'] for c in json.load(open('MANIFEST.json'))['checks']))")
 echo "$ids" | tr ' ' '\n' | xargs -P 4 -I{} sh -c './check {} --tier quick > build/setup_{}.log 2>&1 || true'
